@@ -124,6 +124,12 @@ func Harness_C11_DeleteStep() {
 	b2 := verifSymU64("otherBridge")
 	verifAssume(b2 != b)
 	pre2, next2 := outputsOf(ctx, k, b2), k.nextOut(ctx, b2)
+	// the module's own finality verdict (the one withdrawals are finalized against) on every stored output, before
+	usable := make([]bool, len(pre))
+	for j, r := range pre {
+		f, ferr := k.IsFinalized(ctx, b, r.idx)
+		usable[j] = ferr == nil && f
+	}
 
 	err, pan := runMsg(ctx, func(c sdk.Context) error { _, e := ms.DeleteOutput(c, req); return e })
 	verifAssert("DeleteOutput does not panic", !pan)
@@ -142,9 +148,10 @@ func Harness_C11_DeleteStep() {
 	for j, r := range post {
 		verifAssert("outputs below i are untouched", r.idx == pre[j].idx && sameOutput(r.out, pre[j].out))
 	}
-	for _, r := range pre {
+	for j, r := range pre {
 		if r.idx >= i {
 			verifAssert("no removed output was final (one-second granularity)", !refFinalStrict(ctx.BlockTime(), r.out.L1BlockTime, cfg.FinalizationPeriod))
+			verifAssert("no removed output was one withdrawals could already be finalized against", !usable[j])
 		}
 	}
 	post2 := outputsOf(ctx, k, b2)
